@@ -146,6 +146,10 @@ class SpecMixin:
                     self.uses_alloc = True
                     terms.append(z3.ForAll([r], z3.Implies(alloc0(r), a[r] == b[r])))
             return z3.And(*terms) if terms else True
+        if nm == 'length' and len(node.args) == 2:
+            # length(a, axis): extent of a multi-dimensional array along a (literal) axis
+            a_ = self.ev(node.args[0], st, fr)
+            return self.arr_len(st, a_, int(node.args[1].value))
         if nm == 'length':
             return self.call_builtin('len', [self.ev(node.args[0], st, fr)], {}, st, fr, node)
         if nm == 'real':
